@@ -83,7 +83,7 @@ def make_file(file_sr, channels, n_frames, seed):
 
 
 # ------------------------------------------------------------- axis contract
-def check_axis(c, name, coords, step, first, spec, producer):
+def check_axis(c, name, coords, step, first, spec, producer, mechanism=None):
     """strictly increasing; starts at the source's start; every coordinate within one step of first + i*step."""
     c.mon(f"axis.{producer}.{name}")
     coords = np.asarray(coords, float)
@@ -102,7 +102,10 @@ def check_axis(c, name, coords, step, first, spec, producer):
     worst = float(dev.max() / float(step))
     if worst >= 1.0:
         i = int(dev.argmax())
-        c.violate("axis:within_one_step", f"axis:within_one_step:{producer}:{name}", observed={"i": i, "coord": float(coords[i]), "steps_off": worst, "step_attr": float(step)},
+        key = f"axis:within_one_step:{producer}:{name}"
+        if mechanism is not None and worst <= mechanism[0]:
+            key += ":" + mechanism[1]
+        c.violate("axis:within_one_step", key, observed={"i": i, "coord": float(coords[i]), "steps_off": worst, "step_attr": float(step)},
                   expected="|coord[i] - (first + i*step)| < step", spec=spec)
 
 
@@ -121,7 +124,18 @@ def _post_resample(array, target_samplerate, result):
     if c is None:
         return True
     spec = {"kind": "resample_ambient", "n": int(array.sizes["time"]), "target": target_samplerate, "audio_step": array.time.attrs.get("step")}
-    check_axis(c, "time", result.time.data, result.time.attrs.get("step"), float(array.time.data[0]) if array.sizes["time"] else None, spec, "resample")
+    # mechanism of the open finding: the INPUT's own coordinates do not follow its advertised step (it is itself the
+    # output of a resample whose length was truncated), so resample mis-estimates the duration it has to cover; the
+    # output then drifts by up to 1 + target * (real duration - advertised duration) steps
+    mech = None
+    n_in, a_in = int(array.sizes["time"]), array.time.attrs.get("step")
+    if n_in > 1 and a_in:
+        t_in = np.asarray(array.time.data, float)
+        s_in = float(t_in[-1] - t_in[0]) / (n_in - 1)
+        extra = abs(n_in * float(target_samplerate) * (s_in - float(a_in)))
+        if abs(s_in - float(a_in)) > 1e-12 * float(a_in):
+            mech = (1.0 + extra + 1e-6, "input_spacing_differs_from_its_advertised_step")
+    check_axis(c, "time", result.time.data, result.time.attrs.get("step"), float(array.time.data[0]) if array.sizes["time"] else None, spec, "resample", mechanism=mech)
     return True
 
 
@@ -272,6 +286,16 @@ def judge_resample(ctx, wav, target, spec):
     except Exception as e:
         ctx.violate_exc("resample:raises", f"resample:raises:{type(e).__name__}", e, spec=spec)
         return
+    if ctx.every(spec, 2):
+        # a chain: the result is resampled again (back to the source rate, and further down); each call is judged by the
+        # axis contract on its own
+        try:
+            src_rate = round(1 / wav.time.attrs.get("step"))
+            for t2 in (src_rate, max(1000, target // 2)):
+                AO.resample(out, t2)
+                ctx.mon("resample")
+        except Exception as e:
+            ctx.violate_exc("resample:raises", f"resample:raises_in_chain:{type(e).__name__}", e, spec=spec)
     n_old = wav.sizes["time"]
     step = wav.time.attrs.get("step")
     if out.sizes["time"] != int(n_old * (target * step)):
